@@ -24,6 +24,7 @@ type Atom struct {
 	kind string // "sig", "opaque"
 	id   int    // for kind=="opaque": identity
 	key  *Term  // for kind=="sig": key identity (Int term)
+	alg  StrVal // for kind=="sig": algorithm the signature was made with
 	tree JVal   // for kind=="sig": signed payload
 }
 
@@ -68,6 +69,8 @@ type MapIter struct {
 	visited   map[*MapEntry]bool
 	orig      map[*MapEntry]bool
 	newVisits int
+	started   bool
+	cycle     []*MapEntry
 }
 
 // StrIter is the state of a range-over-string (bytes assumed ASCII).
